@@ -93,8 +93,10 @@ def make_ids(rng, n):
 
 def make_table(rng, ids):
   k = rng.randint(0, 4)
-  sel = rng.choice(len(gen.FEATURE_KINDS), size=k, replace=False) if k else []
-  kinds = [gen.FEATURE_KINDS[i] for i in sel]
+  # fixed-width string columns (S*/U*) are "string arrays": not serializable by design (C16), hence not storable in SQLite
+  pool = [kd for kd in gen.FEATURE_KINDS if not isinstance(kd[1], str)]
+  sel = rng.choice(len(pool), size=k, replace=False) if k else []
+  kinds = [pool[i] for i in sel]
   table = {}
   base = 0
   for cid in ids:
